@@ -152,7 +152,15 @@ def apply_ops(rep, fns):
         if len(traj) == 1:
             t = traj[0]
             m = re.search(r"\{(.*)\}$", decls[t][1])
-            size_ok = (m.group(1) if m else decls[t][1]) == "$1.point_count()"
+            inner = m.group(1) if m else decls[t][1]
+            depth, first = 0, ""
+            for ch in inner:            # first top-level argument (the element count; a defaulted allocator may follow)
+                if ch == "," and depth == 0:
+                    break
+                depth += ch in "({"
+                depth -= ch in ")}"
+                first += ch
+            size_ok = first == "$1.point_count()"
             calls = [rn(R.key(x)) for x, p in R.find(f["body"], lambda x: x.get("k") == "Call" and x.get("op") == "()" and R.key(x["args"][0]) == f["params"][1]["name"])]
             writes = []
             for x, p in R.find(f["body"], lambda x: x.get("k") in ("Assign", "Call") and x.get("op") == "=" and R.key(x.get("l") or x["args"][0]).startswith(f["params"][0]["name"] + "(")):
